@@ -29,6 +29,7 @@ EXPLANATION = (
     "by its form_request, and the parameter the create handler reads as `force` is the action's `force`. NOT decided: "
     "bounded-exhaustive sequence conformance against a reference model."
 )
+TECHNIQUE = "static: abstract interpreter over (in live, in deleted, flag) on every path of the partition-changing methods, CFG must-pass on create routes, option def-use"
 ASSUMPTIONS = ["uuids are unique per item (dict keys)", "only the listed methods write files/deleted_files/folders/deleted_folders (R15.1 who-may-write)"]
 
 State = Tuple[bool, bool, bool]  # (in live, in deleted, deleted flag)
